@@ -12,6 +12,7 @@ import (
 	"os"
 	"os/exec"
 	"path/filepath"
+	"regexp"
 	"sort"
 	"strconv"
 	"strings"
@@ -1111,8 +1112,12 @@ func needsChild(c *Case) bool {
 	if k, arg := single(c.Cmd); k != nil {
 		return specOf(c, k, arg).skip == "fatal-entry-point"
 	}
-	return fatalEP(c)
+	// a sequence nested in another one is rewritten by the earlier pass (quotes are added inside the later sequence's
+	// argument), so its entry point name may no longer be the one written: evaluate those in the child too
+	return fatalEP(c) || nestedSeq.MatchString(c.Cmd)
 }
+
+var nestedSeq = regexp.MustCompile(`\$\([^)]*\$\(`)
 
 // fatalEP: does the command reference an entry point that the named target does not have?  (Conservative:
 // any "|ep" whose ep is not an entry point of every target of the case.)
@@ -1288,6 +1293,9 @@ func runE2E(r *lib.Run, op string, f []string) {
 }
 
 func runOp(r *lib.Run, p *pending, op string, withFS bool) {
+	if os.Getenv("C37_DEBUG") != "" {
+		fmt.Fprintln(os.Stderr, "OP", op) // the last line printed is the op a silent os.Exit happened in
+	}
 	defer func() {
 		if e := recover(); e != nil {
 			if _, ok := e.(parseErr); ok {
@@ -1580,7 +1588,7 @@ func genArg(g *lib.Rng, c *Case, k *seqKind) string {
 	case x < 80: // a label that is not a dependency
 		return lib.Pick(g, []string{"//other:thing", ":nosuch", "//" + c.T.L.Pkg + ":zz", "//a:b", "//pkg", "@sub//a:b", "///sub//a:b", "@sub"})
 	case x < 90: // a file that is not a source
-		return lib.Pick(g, []string{"nosuch.txt", "typo", "a b", "../escape", "/etc/passwd", "x y z", "$HOME", "`id`"})
+		return lib.Pick(g, []string{"nosuch.txt", "typo", "a b", "../escape", "/nonexistent/passwd", "x y z", "$HOME", "`id`"})
 	default: // junk labels
 		return lib.Pick(g, []string{"//", ":", "//a:", "//:x", "//a:b:c", "//a b:c", "//a:..", "//a:.hidden", "//a:b._build", "//a/...", "//...", ":a|b|c", "//a//b:c", "///x", "@", "@:", "@a:b", "//a:b/c", "//é:é", ":" + c.T.L.Name + "|nope"})
 	}
@@ -1602,7 +1610,9 @@ func genCmd(g *lib.Rng, c *Case) string {
 		case 0:
 			b.WriteString(lib.Pick(g, []string{"cat ", "echo \\$OUT ", "\\$", "$(", ")", "$(location )", "$(location", "$(locations x", "$(exe )", " && ", "$OUT", "\\\\$", "$(dir)", "$( location a)", "$(LOCATION a)"}))
 		case 1:
-			k := &seqKinds[g.Intn(len(seqKinds))]
+			// never nest inside $(hash …): the inner sequence is expanded first and $(hash <path>) of a path that happens
+			// to exist (".", the root package's directory) depends on the file system, which the model does not have
+			k := &seqKinds[g.Intn(len(seqKinds)-1)]
 			b.WriteString("$(" + k.kw + " $(" + seqKinds[g.Intn(len(seqKinds))].kw + " " + genArg(g, c, k) + "))")
 		default:
 			k := &seqKinds[g.Intn(len(seqKinds))]
